@@ -2,8 +2,9 @@
 
 1. live-session sequences (``check_sequences``): a real ``JsonHistory`` object whose file lives in the
    scanned history directory next to two closed sessions; every sequence (to depth 3/4) of
-   {append+flush through the real flusher, external delete of the session file, external truncation
-   of it, GC pass with limit (n, unit) [forced / unforced]}.  Oracle: a GC pass never deletes the file
+   {append+flush through the real flusher, append + the `history flush` command through the real
+   history alias, external delete of the session file, external truncation of it, GC pass with limit
+   (n, unit) [forced / unforced]}.  Oracle: a GC pass never deletes the file
    of the session that is still open and never lists it among the unlocked candidates; the closed
    files are collected exactly as the reference says with the open session as a live member; and a
    file the flusher had to recreate carries the same lock flag as the first flush of a brand-new
@@ -38,7 +39,8 @@ GC_EVENTS = [
     ("gc", 1, "files", False),
     ("gc", 2, "commands", False),
 ]
-EVENTS = [("af",), ("rm",), ("trunc",)] + GC_EVENTS
+# af = append + JsonHistory.flush(); hflush = append + the user runs the `history flush` COMMAND (real alias entry point)
+EVENTS = [("af",), ("hflush",), ("rm",), ("trunc",)] + GC_EVENTS
 
 
 def _ensure():
@@ -54,6 +56,9 @@ def _ensure():
     class SyncFlusher(real_fl):
         def start(self):  # the flusher thread's body, run in the caller
             self.run()
+
+        def join(self, timeout=None):  # never started as a thread: nothing to wait for
+            return None
 
     hj.JsonHistoryFlusher = SyncFlusher
     W.sync_gc = hj.JsonHistoryGC
@@ -103,8 +108,9 @@ def sequences(depth_full, depth_gc_tail):
         out.extend(itertools.product(EVENTS, repeat=d))
     if depth_gc_tail > depth_full:
         for head in itertools.product(EVENTS, repeat=depth_gc_tail - 2):
-            for g in GC_EVENTS:
-                out.append(head + (("af",), g))
+            for fl in (("af",), ("hflush",)):
+                for g in GC_EVENTS:
+                    out.append(head + (fl, g))
     return out
 
 
@@ -142,10 +148,16 @@ def run_sequence(events):
     try:
         for k, ev in enumerate(events):
             done += 1
-            if ev[0] == "af":
+            if ev[0] in ("af", "hflush"):
                 h.append({"inp": f"c{k}\n", "rtn": 0, "ts": [B.NOW - 1.0, B.NOW - 0.9], "cwd": "/"})
                 try:
-                    h.flush()
+                    if ev[0] == "af":
+                        h.flush()
+                    else:  # `history flush` typed by the user of the still running session
+                        import xonsh.history.main as xhm
+
+                        W.xsh.history = h
+                        xhm.history_main(["flush"])
                 except Exception:  # noqa: BLE001 - whether a flush over a damaged file succeeds is C13's business
                     continue
                 if state in ("deleted", "corrupted") and os.path.exists(path):
